@@ -351,6 +351,20 @@ class BuiltinMixin:
         self.written.add((o.oid, sn.as_string()))
         return NONE
 
+    def b_spec_allocated(self, fr, f, args, kw, node):
+        """allocated(x): x existed before the call or was constructed since (its identity is above the allocation pointer)"""
+        t = self.to_val(args[0])
+        return SBool(z3.Or(z3.Not(Val.is_VObj(t)), Val.o(t) > self.allocp))
+
+    def b_spec_inputs_unchanged(self, fr, f, args, kw, node):
+        """inputs_unchanged('name', ...): the named attributes of every object that existed before the call are unchanged"""
+        v = z3.Const(self.fresh('v'), Val)
+        cs = []
+        for a in args:
+            nm = z3.simplify(a.t).as_string()
+            cs.append(z3.ForAll([v], z3.Implies(z3.And(Val.is_VObj(v), Val.o(v) >= 0), self.fld(nm, v) == self.fld(nm, v, old=True))))
+        return SBool(z3.And(*cs) if cs else z3.BoolVal(True))
+
     def b_spec_ext(self, fr, f, args, kw, node):
         n = z3.simplify(args[0].t).as_string()
         from . import modinfo
